@@ -15,6 +15,9 @@ def run(ctx):
     RR.bounded_selection(ctx, "R06.a")
     RR.search_chain_shape(ctx, "R06.a", parts=("order", "score", "comparator"))
     RT.postings_unconditional(ctx, "R18.g")
+    RT.counters(ctx, "R07.e", need_clear=False)
+    RT.only_store_add_feeds_index(ctx, "R07.e")
+    RT.every_posting_counted(ctx, "R07.e")
     RR.per_record_purity(ctx, "R06.e")
     # the memoised empty-query ranking must be a function of the records and the limit (not of the order of adds/searches)
     from . import r_state as RS
